@@ -262,6 +262,14 @@ func c11RandomCase(rng *rand.Rand) obj {
 		for i := 0; i < k; i++ {
 			l = append(l, vals[rng.Intn(6)])
 		}
+		if rng.Intn(7) == 0 {
+			// a LONG dimension (17-48 values, written in no particular order): nothing about validation depends on a list's
+			// length, and a rejected tuple leaves the list as written
+			n := 17 + rng.Intn(32)
+			for i := n; i > 0; i-- {
+				l = append(l, fmt.Sprintf("w%02d", (i*7)%n))
+			}
+		}
 		setup[d] = l
 	}
 	pick := func(d string) string {
